@@ -47,6 +47,18 @@ CLAIMS = {
                 'One known finding (covenant-weight sum overflow inside melstructs).',
         'technique': 'bounded symbolic execution of rustc MIR + z3 bit-vector obligations per kernel',
     },
+    'C13': {
+        'text': 'Symbolic execution of the MIR of load_stake_info / stake_is_consistent, the lock test of check_tx_validity, '
+                'next_unsealed and StakeSet::unlock_old: a stake is registered iff its data decodes, its first output is SYM '
+                'of the declared amount, it starts after the current epoch and ends after it starts (grandfathered heights '
+                'carved out); any input created by a registered or just-registered stake transaction is rejected with '
+                'CoinLocked; next_unsealed keeps exactly the stakes whose end epoch is >= the epoch of the next height (so '
+                'locked through that epoch, free from the next). Voting sums are C14.',
+        'design_ref': 'DESIGN.md §8 C13',
+        'note': COMMON_NOTE + ' <= 2 stakes + 1 new, 2 inputs; decode of the data bytes is an arbitrary function of the bytes; '
+                'header() abstracted in next_unsealed (C07).',
+        'technique': 'bounded symbolic execution of rustc MIR + z3 obligations per kernel',
+    },
     'C14': {
         'text': 'Symbolic execution of the MIR of SealedState::confirm and StakeSet::{votes,total_votes}: confirmed => every '
                 'signature valid for the header hash under its own key; all valid and 3P > 2T => confirmed; T > 0 and '
